@@ -79,8 +79,10 @@ def to_term(case, ob):
             o = C("DUnregister", Nat(op[1]))
         elif op[0] == "Notify":
             o = C("DNotify", bool(op[1]))
+        elif op[0] == "SetMode":
+            o = C("DSetMode", C({"none": "MNone", "identity": "MIdentity", "equality": "MEquality"}[op[1]]))
         else:
-            o = C("DOp", C(op[0], Nat(op[1])) if op[0] in ("Assign", "QuietAssign") else C(op[0]))
+            o = C("DOp", C(op[0], Nat(op[1])) if op[0] in ("Assign", "QuietAssign") else C(op[0]))      # Other: payload dropped
         out = st["out"]
         if case["kind"] == "event" and op[0] == "Read" and out.startswith("Other"):
             out = "Ok"          # anything but AttributeError is wrong for an Event read; Ok triggers clause 1
@@ -116,17 +118,18 @@ def key_fn(case, ob, step, clause):
 
 def describe(case, ob, step, clause):
     op = case["ops"][step]
-    return ("trait x (%s, mode %s, default %s%s%s), handlers %r raising %r: clause %s fails at step %d (%s%s): observed %r; "
+    return ("trait x (%s, mode %s, default %s%s%s%s), handlers %r raising %r: clause %s fails at step %d (%s%s): observed %r; "
             "history so far %r" % (case["kind"], case["mode"], POOL_NAMES[case["default"]],
                                    ", stores the original value" if case.get("orig") else "",
-                                   ", variant " + case["variant"] if case.get("variant") else "", handlers_of(case), case["raises"],
+                                   ", variant " + case["variant"] if case.get("variant") else "",
+                                   ", definition " + case["build"] if case.get("build") else "", handlers_of(case), case["raises"],
                                    CLAUSE.get(clause, clause), step, op[0], " " + POOL_NAMES[op[1]] if (len(op) > 1 and op[0] in ("Assign", "QuietAssign")) else "",
                                    ob["steps"][step], case["ops"][:step + 1]))
 
 
 def nontrivial(case, ob):
     sig = json.dumps([case["kind"], case["mode"], case["default"], case["statics"], case["dyn"], case["raises"], case["ops"],
-                      bool(case.get("orig")), case.get("variant", ""), case.get("sinkmode", ""), case.get("reacts", [])])
+                      bool(case.get("orig")), case.get("variant", ""), case.get("sinkmode", ""), case.get("reacts", []), case.get("build", "")])
     nt = any(s["calls"] or s["out"] != "Ok" for s in ob["steps"])
     return sig, nt
 
@@ -158,10 +161,19 @@ def gen_case(rnd, ctx, maxlen):
     next_id = 30
     churn = rnd.random() < 0.4          # handlers registered / removed in the middle of this history
     switching = rnd.random() < 0.25     # _trait_change_notify(False) / (True) in the middle of this history
+    remode = rnd.random() < 0.25        # ctrait.comparison_mode set in the middle of this history
     off = False
     groups = [[0, 1, 10], [3, 4], [7, 8], [12, 13], [5], [11], [2], [6], [9], [14]]
     orig = kind == "normal" and rnd.random() < 0.2
     for _ in range(rnd.randint(1, maxlen)):
+        if remode and rnd.random() < 0.1:
+            ops.append(["SetMode", rnd.choice(["none", "identity", "equality"])])
+            ctx.count("op:SetMode")
+            continue
+        if rnd.random() < 0.06:
+            ops.append(["Other", rnd.choice(["e", "y"])])
+            ctx.count("op:Other")
+            continue
         if switching and rnd.random() < 0.12:
             off = not off
             ops.append(["Notify", 0 if off else 1])
@@ -246,12 +258,18 @@ def gen_case(rnd, ctx, maxlen):
         # add_trait cannot re-create a class-level `_x_default` wiring: the re-added definition would have another default
         ops = [op for op in ops if op[0] != "Retrait"] or [["Read"]]
     ctx.count("trait-variant:" + (variant or "validating-trait-type"))
+    build = ""
+    if variant == "" and rnd.random() < 0.3:
+        build = rnd.choice(["shared", "derived-none", "derived-identity", "derived-equality"])
+        if kind == "event" and build != "shared":
+            build = "shared"
+    ctx.count("definition:" + (build or "trait-type-instance"))
     sinkmode = "default" if rnd.random() < 0.25 else "recording"
     ctx.count("exception-handler:" + sinkmode)
     ctx.count("self-unregistering-handlers:%d" % (sum(1 for m in dyn if m in ONCE) +
                                                   sum(1 for op in ops if op[0] == "Register" and op[1] in ONCE)))
     return dict(kind=kind, mode=mode, default=default, statics=statics, dyn=dyn, raises=raises, ops=ops, orig=orig,
-                variant=variant, sinkmode=sinkmode, reacts=reacts)
+                variant=variant, sinkmode=sinkmode, reacts=reacts, build=build)
 
 
 def corpus():
@@ -320,6 +338,28 @@ def corpus():
                        reacts=[[10, "kill", 11], [12, "kill", 10], [11, "spawn", "obs", 40], [11, "spawn", "otcany", 41],
                                [13, "kill", 12], [40, "kill", 40]],
                        ops=[["Assign", 0], ["Assign", 2], ["Assign", 0], ["Register", "obs", 11], ["Assign", 2], ["Assign", 0]]))
+    modes = [["Assign", 0], ["Assign", 0], ["Assign", 1], ["SetMode", "none"], ["Assign", 1], ["Assign", 0], ["SetMode", "equality"],
+             ["Assign", 1], ["Assign", 2], ["SetMode", "identity"], ["Assign", 2], ["Assign", 1], ["Assign", 0], ["SetMode", "none"],
+             ["Assign", 0], ["Retrait"], ["Assign", 0], ["Assign", 1], ["SetMode", "identity"], ["Delete"], ["Assign", 6]]
+    for kind, mode in (("normal", "none"), ("normal", "identity"), ("normal", "equality"), ("event", "equality")):
+        # the comparison mode is changed in the middle (every transition between the three modes); add_trait resets it
+        cs.append(dict(kind=kind, mode=mode, default=6, statics=["any", "changed"], dyn=["otc", "obs", "otcany"], raises=[],
+                       ops=modes))
+        cs.append(dict(kind=kind, mode=mode, default=6, statics=["changed"], dyn=["obs"], raises=[], orig=True, ops=modes))
+    rep = [["Assign", 0], ["Assign", 0], ["Assign", 1], ["Assign", 6], ["Assign", 6], ["Assign", 2], ["Other", "y"], ["Assign", 2],
+           ["Other", "e"], ["Assign", 0], ["Assign", 1]]
+    for mode in ("none", "identity", "equality"):
+        # definitions derived from a CTrait that is in ANOTHER comparison mode; one CTrait object shared by two attributes
+        # and two classes with static handlers
+        for build in ("derived-none", "derived-identity", "derived-equality", "shared"):
+            for orig in (False, True):
+                cs.append(dict(kind="normal", mode=mode, default=6, statics=["any", "changed", "fired"], dyn=["otc", "obs"],
+                               raises=[], orig=orig, build=build, ops=rep))
+        # another trait of another kind notified FIRST through the class's single anytrait wrapper
+        cs.append(dict(kind="normal", mode=mode, default=0, statics=["any", "changed"], dyn=["otcany"], raises=[],
+                       ops=[["Other", "e"], ["Assign", 1], ["Assign", 0], ["Other", "y"], ["Assign", 1], ["Assign", 2], ["Assign", 2]]))
+    cs.append(dict(kind="event", mode="equality", default=6, statics=["any", "changed", "fired"], dyn=["otc", "obs"], raises=[],
+                   build="shared", ops=rep))
     # traits that store the ORIGINAL value (Expression / AdaptsTo style): trigger of F22 (repaired) so that a reversal is detected
     for mode in ("none", "identity", "equality"):
         cs.append(dict(kind="normal", mode=mode, default=6, statics=["changed"], dyn=["obs", "otc"], raises=[], orig=True,
@@ -381,6 +421,34 @@ def run(ctx):
             [opt(None if v is None else Nat(v)) for v in tb["validate"]]),
         "Definition pool_validate_any : list (option val) := %s." % coq([Some(Nat(i)) for i in range(len(tb["validate"]))])])
     ctx.cov["pool_tables"] = tb
+    # pre-flight: if the implementation kills the driver process (abort / segfault) find the history that does it and
+    # report it as a failing input (the assignment does not complete, no handler is called), then go on without it
+    probe = cases[:len(corpus())] if not ctx.replay else list(cases)     # the corpus comes first and holds every configuration
+    for _ in range(3):
+        rc, out, err = ctx.run_driver(DRIVER, probe)
+        if rc == 0 and out is not None:
+            break
+        lo, hi = 0, len(probe)            # invariant: probe[:lo] runs, probe[:hi] does not
+        while hi - lo > 1:
+            mid = (lo + hi) // 2
+            r2, o2, _ = ctx.run_driver(DRIVER, probe[:mid])
+            if r2 == 0 and o2 is not None:
+                lo = mid
+            else:
+                hi = mid
+        bad = probe[lo]
+        r3, o3, e3 = ctx.run_driver(DRIVER, [bad])
+        if r3 == 0 and o3 is not None:
+            break                          # not reproducible on its own: leave it to hist.run's harness report
+        ctx.fail("crash/%s/%s" % (bad["kind"] if bad["kind"] == "event" else bad["mode"], bad.get("build") or "plain"),
+                 "the implementation kills the interpreter (driver exit status %s) on this history: trait x (%s, mode %s, "
+                 "definition %s), handlers %r, operations %r; stderr: %s" % (
+                     r3, bad["kind"], bad["mode"], bad.get("build") or "trait type instance", handlers_of(bad), bad["ops"],
+                     (e3 or "")[-300:].replace("\n", " | ")),
+                 dict(kind="implementation-crash", case=bad, driver_rc=r3, stderr=(e3 or "")[-1500:]))
+        same = lambda c: (c.get("build") == bad.get("build") and c["mode"] == bad["mode"] and c["kind"] == bad["kind"])  # noqa: E731
+        cases = [c for c in cases if not same(c)]
+        probe = [c for c in probe if not same(c)]
     k = hist.run(ctx, DRIVER, cases, to_term, header, CASE_T, key_fn, describe, nontrivial,
                  relation="C02.Corr.corr_codes (Model.step = implementation on every operation)")
     ctx.cov["evaluations"] = sum(len(c["ops"]) for c in cases) if k else 0
